@@ -46,6 +46,18 @@ def worker_main(rc, evlog):
         finally:
             log("seq-end", ",".join(taskSequence.tasks))
     ep.execute_sequence = wrapper
+    real_des = ep.serde.des_message
+
+    def des_message(raw):
+        m = real_des(raw)
+        log("msg-recv", type(m).__name__)      # the worker loop has taken this message off its socket
+        return m
+
+    class _Serde:
+        def __getattr__(self, k):
+            return des_message if k == "des_message" else getattr(real_serde, k)
+    real_serde = ep.serde
+    ep.serde = _Serde()
     ep.entrypoint(rc)
 
 
@@ -163,24 +175,40 @@ def run(spec):
                 res["stats"]["sibling_outputs_split_by_command"] += 1
             extra_purge = rng.random() < 0.3
             n_before = len([e for e in read_log(evlog) if e[1] == "seq-start"])
+            recv_before = len([e for e in read_log(evlog) if e[1] == "msg-recv"])
+            n_sent = [0]
+            _wsend = wsend
+
+            def wsend_counted(m, _w=_wsend):
+                n_sent[0] += 1
+                _w(m)
+            wsend_r = wsend_counted
             for token in perm:
                 if token == "TS":
-                    wsend(TaskSequence(worker=w, tasks=[cid], publish={DatasetId(cid, "0")}))
+                    wsend_r(TaskSequence(worker=w, tasks=[cid], publish={DatasetId(cid, "0")}))
                 else:
                     i = int(token[1:])
                     ds = DatasetId(*src[(j, i)])
                     put(ds, ref[src[(j, i)]])
-                    wsend(DatasetPublished(origin=w, ds=ds, transmit_idx=None))
+                    wsend_r(DatasetPublished(origin=w, ds=ds, transmit_idx=None))
                     if rng.random() < 0.2:
-                        wsend(DatasetPublished(origin=w, ds=ds, transmit_idx=None))  # duplicate notice
+                        wsend_r(DatasetPublished(origin=w, ds=ds, transmit_idx=None))  # duplicate notice
                 if extra_purge and rng.random() < 0.5:
-                    wsend(DatasetPurge(ds=DatasetId("unrelated", "0")))
+                    wsend_r(DatasetPurge(ds=DatasetId("unrelated", "0")))
                 time.sleep(rng.choice([0, 0, 0.002, 0.01]))
             # ---- the sequence must start exactly once, with every input readable, and publish the right value -----------
             got_value = None
-            deadline = time.time() + 30
+            deadline = time.time() + 90          # generous cap; what it cuts off is inconclusive, not a violation
             failure = None
+            all_recv_at = None
+
+            def worker_has_everything():
+                return len([e for e in read_log(evlog) if e[1] == "msg-recv"]) - recv_before >= n_sent[0]
             while time.time() < deadline and got_value is None and failure is None:
+                if all_recv_at is None and worker_has_everything():
+                    all_recv_at = time.time()
+                if all_recv_at is not None and time.time() - all_recv_at > 6 and not [e for e in read_log(evlog) if e[1] == "seq-start"][n_before:]:
+                    break        # the worker loop has taken every message of the round off its socket and sits idle: logical verdict
                 for m in lst.recv_messages(50):
                     if isinstance(m, DatasetPublished) and m.ds == DatasetId(cid, "0"):
                         buf = shm_client.get(ds2shmid(m.ds), timeout_sec=2)
@@ -201,8 +229,12 @@ def run(spec):
                 V.append(["worker-process-died", f"{wit}: worker exited with {wp.exitcode} (e.g. 'double task sequence enqueued')"])
                 break
             if len(starts) == 0:
-                V.append(["sequence-never-started", f"{wit}: no start within 30 s after the last notice"])
+                if all_recv_at is None:
+                    return {"outcome": "harness-error", "error": f"{wit}: the worker had not taken all {n_sent[0]} messages off its socket after 90 s (machine overloaded?)"}
+                V.append(["sequence-never-started", f"{wit}: the worker loop received all {n_sent[0]} messages of the round and did not start the sequence"])
                 break
+            if got_value is None and failure is None and wp.is_alive():
+                return {"outcome": "harness-error", "error": f"{wit}: sequence started but nothing was published within 90 s (machine overloaded?)"}
             if len(starts) > 1:
                 V.append(["sequence-started-twice", f"{wit}: {len(starts)} starts"])
                 break
